@@ -460,7 +460,7 @@ def run(chk):
         chk.notes.append("T direction skipped: the first driver stage produced no points (the implementation already failed the replays above)")
         return finish(chk, variants, fstat, sst, str_, gen, {})
     common = sc_driver(rng, nsc) + group_driver(rng, pts, ngl) + ecmult_driver(rng, pts, nem) + hash_driver(rng, nh) + fe_driver(rng, nfe, False)
-    events = list(ev1); seen = set(); per_variant = {}
+    events = {"std": list(ev1)}; seen = set(); per_variant = {}
     for v in variants:
         inputs = common + fe_driver(random.Random(chk.seed + 17), nfe // 2, True)     # get_bounds values are layout-specific: same inputs, recorded per variant
         _, ev = run_robust(chk, inputs, v, "driver inputs")
@@ -468,7 +468,7 @@ def run(chk):
         for e in ev:
             k = json.dumps(e, sort_keys=True, separators=(",", ":"))
             if k in seen: continue
-            seen.add(k); events.append(e); fresh += 1
+            seen.add(k); events.setdefault(v, []).append(e); fresh += 1
         log("[C05] driver on %s: %d events recorded, %d not byte-identical to an earlier variant's" % (v, len(ev), fresh))
     # ---- dedicated probes for the two contract inconsistencies found (notes/C05.md) ----
     strict = os.environ.get("C05_STRICT", "0") == "1"
@@ -484,7 +484,7 @@ def run(chk):
         _, ev = run_robust(chk, f2, v, "probe F2")
         for e in ev:
             k = json.dumps(e, sort_keys=True, separators=(",", ":"))
-            if k not in seen: seen.add(k); events.append(e)
+            if k not in seen: seen.add(k); events.setdefault(v, []).append(e)
     # E3: fe_equal(a, b) with b.magnitude = 31 is inside the documented precondition but aborts in VERIFY builds
     e3 = {"e": "KFeSeq", "in": {"init": [b32(5), b32(7)], "ops": [["normalize", 0, 0, 0, 0], ["negate", 1, 1, 1, 30], ["equal", 0, 0, 1, 0]]}}
     for v in variants:
@@ -497,7 +497,9 @@ def run(chk):
             chk.violation("fe_equal(5, -7) returned non-zero", [e3], v)
     # events of two variants differ legitimately only in KFeSeq records (mag/nrm presence, get_bounds values); anything else is a cross-configuration difference
     # that the specification will reject for at least one of the two
-    chk.validate(events, MODULE, "C05_trace.cfg", "driver", timeout=6000)
+    # one validation per variant that contributed events (so that a rejected event is attributed to, and replayable on, its build)
+    for v in variants:
+        if events.get(v): chk.validate(events[v], MODULE, "C05_trace.cfg", "driver-" + v, variant=v, timeout=6000)
     return finish(chk, variants, fstat, sst, str_, gen, per_variant)
 
 
